@@ -20,6 +20,7 @@ import (
 	"path/filepath"
 	"runtime/pprof"
 	"sort"
+	"strconv"
 	"sync/atomic"
 	"syscall"
 	"time"
@@ -40,6 +41,10 @@ type unit struct {
 	Prefix  []int  `json:"prefix,omitempty"`
 	Shallow bool   `json:"shallow,omitempty"`
 	Exact   bool   `json:"exact,omitempty"`
+	// Start > 0: the history does not start from an empty directory but from a group that already holds two rolled
+	// files <head>.(Start-2) and <head>.(Start-1), as a long-running node's pruning leaves them; the head has
+	// index Start, so the history's rotations produce the rolled indexes Start, Start+1, ...
+	Start int `json:"start,omitempty"`
 	// phase 2: the image written by Ops (code = 2*kind + sync, tickCode = rotation tick), then every damage
 	// Slices > 1: this unit handles only the byte offsets with offset % Slices == Slice (large images)
 	Ops    []int   `json:"ops,omitempty"`
@@ -140,7 +145,15 @@ func readGroup(headPath string) (names []string, files [][]byte) {
 			rot = append(rot, e.Name())
 		}
 	}
-	sort.Strings(rot)
+	// index order is numeric: <head>.1000 comes after <head>.999
+	sort.Slice(rot, func(i, j int) bool {
+		a, ea := strconv.Atoi(rot[i][len(base)+1:])
+		b, eb := strconv.Atoi(rot[j][len(base)+1:])
+		if ea != nil || eb != nil || a == b {
+			return rot[i] < rot[j]
+		}
+		return a < b
+	})
 	if head {
 		rot = append(rot, base)
 	}
@@ -159,6 +172,41 @@ type collector struct {
 	st     stats
 	viols  map[string]*violRec
 	states map[uint64]struct{}
+}
+
+// groupView compares the index range the (re)opened group works with against the rolled files that are in the
+// directory; "" when they agree (head index = largest rolled index + 1, first index = smallest rolled index).
+func groupView(w cs.WAL, headPath string) string {
+	dir, base := filepath.Dir(headPath), filepath.Base(headPath)
+	ents, err := ioutil.ReadDir(dir)
+	if err != nil {
+		fatal("groupView: %v", err)
+	}
+	min, max := -1, -1
+	var rolled []string
+	for _, e := range ents {
+		if len(e.Name()) > len(base)+1 && e.Name()[:len(base)+1] == base+"." {
+			if i, err := strconv.Atoi(e.Name()[len(base)+1:]); err == nil {
+				rolled = append(rolled, e.Name())
+				if min < 0 || i < min {
+					min = i
+				}
+				if i > max {
+					max = i
+				}
+			}
+		}
+	}
+	wantMin, wantMax := 0, 0
+	if max >= 0 {
+		wantMin, wantMax = min, max+1
+	}
+	g := w.Group()
+	if g.MinIndex() == wantMin && g.MaxIndex() == wantMax {
+		return ""
+	}
+	sort.Strings(rolled)
+	return fmt.Sprintf("the opened group works with indexes %d..%d (head = %d) but the directory holds the rolled files %v, i.e. indexes %d..%d (head = %d)", g.MinIndex(), g.MaxIndex(), g.MaxIndex(), rolled, wantMin, wantMax, wantMax)
 }
 
 func newCollector() *collector {
@@ -313,12 +361,12 @@ func runHistories(u unit, c *collector) {
 		fatal("alphabet %q", u.Alpha)
 	}
 	if u.Exact {
-		runHistory(u.Alpha, u.Prefix, c)
+		runHistory(u.Alpha, u.Prefix, u.Start, c)
 		return
 	}
 	var rec func(h []int, max int)
 	rec = func(h []int, max int) {
-		runHistory(u.Alpha, h, c)
+		runHistory(u.Alpha, h, u.Start, c)
 		if len(h) >= max {
 			return
 		}
@@ -366,26 +414,70 @@ func matchRecords(recs []rec, exp []expected) []rec {
 	return recs[:n]
 }
 
-func runHistory(alpha string, hist []int, c *collector) {
+// startState brings the directory into the state "two rolled files <head>.(start-2), <head>.(start-1) and an empty
+// head of index start": the two files are written through the real WAL (marker 0 and a timeout in the first, marker
+// 1 and a timeout in the second) and then given the names they would have after start-2 further rotations whose
+// files have been pruned. Returns what has been written.
+func startState(path string, start int) []expected {
+	if start < 2 {
+		fatal("start index %d", start)
+	}
+	exp := []expected{{cs.EndHeightMessage{Height: 0}, 0, "endheight"}}
+	w := openWAL(path, true)
+	wr := func(k kind, pos int, h uint64, mk int64) {
+		m := mkMsg(k, pos, h)
+		exp = append(exp, expected{m, mk, k.String()})
+		w.WriteSync(m)
+	}
+	wr(kTimeout, 90, 0, -1)
+	autofile.VerifTick(w.Group())
+	wr(kEndHeight, 91, 1, 1)
+	wr(kTimeout, 92, 0, -1)
+	autofile.VerifTick(w.Group())
+	closeWAL(w)
+	for i := 1; i >= 0; i-- {
+		from, to := fmt.Sprintf("%s.%03d", path, i), fmt.Sprintf("%s.%03d", path, start-2+i)
+		if err := os.Rename(from, to); err != nil {
+			fatal("start state: %v", err)
+		}
+	}
+	return exp
+}
+
+func runHistory(alpha string, hist []int, start int, c *collector) {
 	a := alphabets[alpha]
 	hcopy := append([]int{}, hist...)
-	curCase.Store(map[string]interface{}{"phase": 1, "alpha": alpha, "op_ids": hcopy})
+	curCase.Store(map[string]interface{}{"phase": 1, "alpha": alpha, "op_ids": hcopy, "start": start})
 	defer tick()
 	replay := func(img string) func() interface{} {
 		return func() interface{} {
-			return map[string]interface{}{"phase": 1, "alpha": alpha, "ops": histNames(alpha, hcopy), "op_ids": hcopy, "image": img}
+			r := map[string]interface{}{"phase": 1, "alpha": alpha, "ops": histNames(alpha, hcopy), "op_ids": hcopy, "image": img}
+			if start > 0 {
+				r["start"] = start
+				r["start_state"] = fmt.Sprintf("rolled files wal.%03d, wal.%03d on disk, head has index %d", start-2, start-1, start)
+			}
+			return r
 		}
 	}
 	size := int64(len(hist))*1000 + histRank(hist)
+	if start > 0 {
+		size += 1 << 30 // a case from the empty directory is simpler
+	}
 	c.st["histories"]++
 	c.st["write_events"] += len(hist)
 	dir := newScratch()
 	defer os.RemoveAll(dir)
 	path := filepath.Join(dir, "wal")
 
-	exp := []expected{{cs.EndHeightMessage{Height: 0}, 0, "endheight"}} // written by OnStart into an empty head
+	var exp []expected
 	nextH := uint64(1)
+	if start > 0 {
+		exp = startState(path, start)
+		nextH = 2
+	}
+	exp = append(exp, expected{cs.EndHeightMessage{Height: 0}, 0, "endheight"}) // written by OnStart into an empty head
 	w := openWAL(path, true)
+	misOpen := groupView(w, path) // does any open of the writing process itself misread the directory?
 	var opPanic []viol
 	for pos, si := range hist {
 		s := a[si]
@@ -397,6 +489,9 @@ func runHistory(alpha string, hist []int, c *collector) {
 				closeWAL(w)
 				empty := headEmpty(path)
 				w = openWAL(path, true)
+				if v := groupView(w, path); v != "" && misOpen == "" {
+					misOpen = v
+				}
 				if empty {
 					exp = append(exp, expected{cs.EndHeightMessage{Height: 0}, 0, "endheight"})
 				}
@@ -443,7 +538,10 @@ func runHistory(alpha string, hist []int, c *collector) {
 	}
 	w2 := openWAL(path, true)
 	names, files := readGroup(path)
-	L := &layout{}
+	L := &layout{misindexed: groupView(w2, path)}
+	if L.misindexed == "" {
+		L.misindexed = misOpen
+	}
 	L.setFiles(names, files)
 	stream := L.stream()
 	recs, stop := parseStream(stream)
@@ -457,7 +555,11 @@ func runHistory(alpha string, hist []int, c *collector) {
 		c.st["images_clean_with_record_split_across_files"]++
 	}
 	if stop != len(stream) || len(L.recs) != len(exp2) {
-		c.add([]viol{{"writer:clean-log-is-not-the-written-record-sequence", fmt.Sprintf("after a clean stop the files hold %d bytes; the reference parser finds %d of the %d written records and stops at byte %d", len(stream), len(L.recs), len(exp2), stop)}}, size, replay("clean"))
+		key, why := "writer:clean-log-is-not-the-written-record-sequence", ""
+		if misOpen != "" || L.misindexed != "" {
+			key, why = keyMisindexed, " [writer:clean-log-is-not-the-written-record-sequence]; "+L.misindexed
+		}
+		c.add([]viol{{key, fmt.Sprintf("files %v: after a clean stop the files hold %d bytes; the reference parser finds %d of the %d written records and stops at byte %d", names, len(stream), len(L.recs), len(exp2), stop) + why}}, size, replay("clean"))
 	} else {
 		vs := evalImage(w2, L, damage{class: "undamaged", none: true, p: len(L.recs), desc: "clean stop"}, heights, c.st)
 		c.add(vs, size, replay("clean"))
@@ -475,7 +577,10 @@ func runHistory(alpha string, hist []int, c *collector) {
 	}
 	w3 := openWAL(path2, false)
 	names3, files3 := readGroup(path2) // NewWAL creates the head if the crash left none
-	Lc := &layout{}
+	Lc := &layout{misindexed: groupView(w3, path2)}
+	if Lc.misindexed == "" {
+		Lc.misindexed = misOpen
+	}
 	Lc.setFiles(names3, files3)
 	cstream := Lc.stream()
 	crecs, _ := parseStream(cstream)
@@ -504,6 +609,7 @@ func runHistory(alpha string, hist []int, c *collector) {
 	// canonical state (for the distinct-state count): record kinds, how they are spread over the files, what is
 	// still buffered
 	var sk bytes.Buffer
+	fmt.Fprintf(&sk, "start%d|", start)
 	for _, e := range exp {
 		sk.WriteString(e.k)
 		sk.WriteByte(',')
